@@ -135,6 +135,8 @@ func (v *PacketDslVisitorImpl) VisitPacketDefinition(ctx *gen.PacketDefinitionCo
 	// Iterate over all fieldDefinition children
 	var fields []*model.Field
 	var fieldMap = make(map[string]*model.Field)
+	var fieldLine = make(map[string]int)
+	var fieldColumn = make(map[string]int)
 	var lengthField *model.Field
 	var matchFields = make(map[string][]model.MatchPair)
 	for _, fctx := range ctx.AllFieldDefinitionWithAttribute() {
@@ -177,6 +179,8 @@ func (v *PacketDslVisitorImpl) VisitPacketDefinition(ctx *gen.PacketDefinitionCo
 			}
 			fields = append(fields, fld)
 			fieldMap[fld.Name] = fld
+			fieldLine[fld.Name] = fctx.GetStart().GetLine()
+			fieldColumn[fld.Name] = fctx.GetStart().GetTokenSource().GetCharPositionInLine()
 
 			if mf, ok := fld.Attr.(*model.MatchFieldAttribute); ok {
 				matchFields[mf.MatchKeyField.Name] = mf.MatchPairs
@@ -197,12 +201,30 @@ func (v *PacketDslVisitorImpl) VisitPacketDefinition(ctx *gen.PacketDefinitionCo
 				c.RefPacket = v.BinModel.PacketsMap[c.PacketName]
 			}
 		case *model.LengthFieldAttribute:
+			target, exists := fieldMap[c.TragetField.Name]
+			if !exists {
+				v.BinModel.AddSyntaxError(&model.SyntaxError{
+					Line:   fieldLine[f.Name],
+					Column: fieldColumn[f.Name],
+					Msg:    "Unknown field " + c.TragetField.Name + " for lengthOf field " + f.Name,
+				})
+				continue
+			}
 			f.Attr = &model.LengthFieldAttribute{
 				LengthType:  f.GetType(),
-				TragetField: fieldMap[c.TragetField.Name],
+				TragetField: target,
 			}
 		case *model.MatchFieldAttribute:
-			c.MatchKeyField = fieldMap[c.MatchKeyField.Name]
+			keyField, exists := fieldMap[c.MatchKeyField.Name]
+			if !exists {
+				v.BinModel.AddSyntaxError(&model.SyntaxError{
+					Line:   fieldLine[f.Name],
+					Column: fieldColumn[f.Name],
+					Msg:    "Unknown key field " + c.MatchKeyField.Name + " for match field " + f.Name,
+				})
+				continue
+			}
+			c.MatchKeyField = keyField
 
 		}
 	}
